@@ -977,7 +977,7 @@ MUTANTS = [
                             | Err(_) => {""", new="""                            Ok(ChunkedCalleeCheckDecision::Cancelled) => {}
                             Ok(ChunkedCalleeCheckDecision::Recompute)
                             | Err(_) => {""",
-         expect="C01.n/unordered-group/cancelled-chunk-means-recompute"),
+         expect="C01.n/unordered-group/only-cleaned-chunks-count-as-clean"),
     dict(id="C01.n-tfc-diff-only-for-firewall-callees", prop="C01", file=CG + "repair.rs",
          old="            if !kind.is_firewall() {\n                let tfc_fingerprint_diff", new="            if kind.is_firewall() {\n                let tfc_fingerprint_diff",
          expect="C01.n/check_callee/tfc-diff-for-non-firewall-callees"),
@@ -1037,6 +1037,30 @@ MUTANTS = [
     dict(id="C12.g-zigzag-encode-i16-wrong-sign-shift", prop="C12", file="crates/serialize/src/postcard.rs",
          old="    ((value << 1) ^ (value >> 15)) as u16", new="    ((value << 1) ^ (value >> 14)) as u16",
          expect="C12.g/witness/zigzag-is-the-standard-bijection"),
+    dict(id="C05.f-panicked-chunk-counts-as-clean", prop="C05", file=CG + "repair.rs",
+         old="""                            Ok(
+                                ChunkedCalleeCheckDecision::Cancelled
+                                | ChunkedCalleeCheckDecision::Recompute,
+                            )
+                            | Err(_) => {""", new="""                            Err(_) => {}
+                            Ok(
+                                ChunkedCalleeCheckDecision::Cancelled
+                                | ChunkedCalleeCheckDecision::Recompute,
+                            ) => {""",
+         expect="C05.f/unordered-group/only-cleaned-chunks-count-as-clean"),
+    dict(id="C06.e-D7-observation-unwrapped", prop="C06", file=CG + "repair.rs",
+         old="""            let value_fingerprint_diff = callee_node_info.value_fingerprint()
+                != observation.seen_value_fingerprint;""",
+         new="""            let value_fingerprint_diff = callee_node_info.value_fingerprint()
+                != forward_edge_observation.0.get(callee).unwrap().seen_value_fingerprint;""",
+         expect="C06.e/check_callee/observation-of-a-cyclic-edge-may-be-missing"),
+    dict(id="C06.d-scc-check-before-defuse", prop="C06", file="crates/qbice/src/engine/computation_graph.rs",
+         old="""                FastPathResult::Hit(value) => {
+                    // defuse the undo""",
+         new="""                FastPathResult::Hit(value) => {
+                    Self::is_query_running_in_scc(caller)?;
+                    // defuse the undo""",
+         expect="C06.d/query_for/completed-calls-keep-their-dependency"),
     # ------------------------------------------------------------------ C09.f (D5)
     dict(id="C09.f-D5-fold-heap-in-arbitrary-order", prop="C09", file=ST + "key_of_set_map/cache.rs",
          old="""        let mut ordered = log.iter().collect::<Vec<_>>();
